@@ -129,7 +129,7 @@ def same(a, b):
     import numpy as np
     if isinstance(a, np.ndarray) or isinstance(b, np.ndarray):
         try:
-            return bool(np.allclose(np.asarray(a, dtype="float64"), np.asarray(b, dtype="float64"), rtol=1e-9, atol=1e-9))
+            return bool(np.allclose(np.asarray(a, dtype="float64"), np.asarray(b, dtype="float64"), rtol=1e-9, atol=1e-9, equal_nan=True))
         except Exception:  # noqa: BLE001
             return False
     return a == b
